@@ -283,6 +283,7 @@ class SimpleProcessTensor(BaseProcessTensor):
         """
         if initial_tensor is None:
             self._initial_tensor = None
+        else:
             self._initial_tensor = np.array(initial_tensor, dtype=NpDtype)
 
     def set_mpo_tensor(
